@@ -282,6 +282,31 @@ func buildReplayTest(e *Engine, v *fnVC, vals []string, o *Obl) (string, bool) {
 		case *types.Struct:
 			// struct value whose fields are basic: the model value is a constructor application
 			init = structLiteral(pt, u, fields[""], qual)
+		case *types.Interface:
+			// dynamic type from the model's tag; payload built from the scalar fields read back from the model
+			if fv := fields[""]; fv != nil {
+				parts := splitSexp(strings.TrimSuffix(strings.TrimPrefix(strings.TrimSpace(fv.val), "("), ")"))
+				if len(parts) == 3 && parts[0] == "mkI" {
+					tag, _ := smtInt(parts[1])
+					if tag == 0 {
+						init = "nil"
+					}
+					for ts, tg := range v.P.typeTags {
+						if int64(tg) != tag {
+							continue
+						}
+						for fname, f := range fields {
+							i := strings.Index(fname, ".")
+							if i < 0 || "*"+modPrefix+"."+fname[:i] != ts {
+								continue
+							}
+							if lit, ok := goLiteral(f.ty, f.val, f.slen, f.bytes); ok {
+								init = fmt.Sprintf("&%s{%s: %s}", fname[:i], fname[i+1:], lit)
+							}
+						}
+					}
+				}
+			}
 		case *types.Slice:
 			// a slice of the model's length with zero elements (element values are not read back)
 			if fv := fields[""]; fv != nil {
